@@ -38,11 +38,12 @@ def plan(tier, seed):
     shards = []
     n = 16 if tier == "quick" else 64
     per = 400 if tier == "quick" else 1500
-    modes = ["free", "arith", "tropical", "nonneg", "semiring", "free", "arith", "semiring"]
+    modes = ["free", "semiring", "arith", "tropical", "nonneg"]
     for i in range(n):
-        cfg = CONFIGS[i % 4]
-        shards.append({"name": "s%d-%s-tco%s-tc%s" % (i, modes[(i // 4) % len(modes)], cfg["FUNSOR_USE_TCO"], cfg["FUNSOR_TYPECHECK"]),
-                       "mode": modes[(i // 4) % len(modes)], "env": cfg, "n": per, "depth": 2 + (i % 2), "timeout": 3000})
+        cfg = CONFIGS[(i // len(modes) + i) % 4]      # every mode meets several interpreter configurations, also in the quick tier
+        mode = modes[i % len(modes)]
+        shards.append({"name": "s%d-%s-tco%s-tc%s" % (i, mode, cfg["FUNSOR_USE_TCO"], cfg["FUNSOR_TYPECHECK"]),
+                       "mode": mode, "env": dict(cfg), "n": per, "depth": 2 + (i % 2), "timeout": 3000})
     return shards
 
 
@@ -252,9 +253,14 @@ def run_case(P, shard, res, riders, memo, rng, n):
             RC = build(P)
             RD = build(P)
         res.count("memo:identity-checked")
-        if A is not B:
+        # Tensor.align / output reshapes of ground tensors make a fresh array view per call; arrays are equal only when identical, so
+        # two builds of such a program legitimately differ (same for the evaluated results)
+        fresh_views = any(k in ("align",) for k in kinds_in(P))
+        if fresh_views:
+            res.count("memo:identity-skipped-fresh-array-views")
+        elif A is not B:
             res.violation("memoize:not-identical", "two lazy builds of one program inside memoize() are different objects | %s" % show(P)[:300], case={"P": P})
-        if RA is not RB or RC is not RD:
+        if not fresh_views and (RA is not RB or RC is not RD):
             res.violation("memoize:not-identical", "repeated memoized evaluation returned different objects | %s" % show(P)[:300], case={"P": P})
         # stale-id scenario: drop results and arrays created by evaluation, collect, evaluate again in the same cache
         del RA, RB, RC, RD
